@@ -52,6 +52,15 @@ PROPS = {
         "trusted_base": ["harness/src/s_determ.rs", "RandomState reseeding per HashMap in std (fresh builds give fresh iteration orders)"],
         "assumptions": ["iteration orders actually exercised are those std's RandomState produces in N builds"],
     },
+    "C09": {
+        "module": "BiscuitModel.Props.C09",
+        "streams": ["untrusted"],
+        "level_text": "Lean 4 theorems about the checked accessors that stand between untrusted data and an index (Model/Untrusted, Model/Symbols): block_access_checked (Biscuit::block / UnverifiedBiscuit::block succeed exactly for the indices below the block count - for EVERY index), block_access_error, block_access_value, getSymbol_total (a symbol id resolves exactly when it is a default symbol or an index into the table), getSymbol_gap (the ids between the 28 default symbols and the offset 1024 are unknown symbols), getSymbol_beyond, tempSymbol_beyond. Tie: stream untrusted, run in a child process with one flushed outcome line per case (a dead or stuck child gives the case it was on the outcome abort and a new child continues): random and damaged bytes / text into every entry point that takes external data (token bytes and base64, verified, unverified and deprecated; third-party requests and blocks; authorizer snapshots; saved policies; key strings, raw bytes, PEM and DER); correctly signed tokens (the harness signs with the keys it holds) whose block contents are adversarial - out-of-range symbol, key and variable ids incl. the gap 28..1023, malformed op sequences, unknown enum values, empty oneofs, wrong versions, duplicated or emptied tables, deep nesting, unbounded rules - followed by the full sweep on what loads (every block accessor for indices 0..count+2, print, Display, context, revocation ids, serialization, seal, append, third-party request and append, authorizer build, authorize / query under limits, print_world, dump, dump_code, save, snapshot; the same on UnverifiedBiscuit plus verify); adversarial third-party block contents signed by the external key; adversarial authorizer snapshots (iterations, limits, generated facts with unknown symbols, odd origins, adversarial blocks and policies) followed by every operation on what restores; Datalog source with invalid keys, arithmetic edge cases, catastrophic regexes, unbound parameters and nesting from 10 to 40000 levels. The model predicts the verdict of every block accessor for every index of the sweep and of every symbol lookup; the oracle requires a value or an error, never a panic, abort or hang.",
+        "level_note": "Partial by nature: panics, aborts, stack exhaustion and hangs are runtime behaviour which the model cannot exhibit; absence of them is established only as far as the stream reaches. What is proved is that the modelled accessors take the error branch exactly where the Rust code would otherwise index out of range.",
+        "rule": "untrusted stream: corpus (a fixed finding and the known one) first, then seeded cases in the proportions entry points 2 : signed adversarial tokens 4 : third-party contents 1 : snapshots 1 : Datalog source 1, one symbol-lookup probe every 40 cases; non-trivial = anything but an entry-point case that is refused; distinct = distinct case JSON",
+        "trusted_base": ["harness/src/s_untrusted.rs (generator, signing fixture craft_token, child-process isolation and watchdog)", "tools/props.py cmp_untrusted, oracle_untrusted", "lean/Codec.lean, lean/Driver.lean runUntrusted"],
+        "assumptions": [],
+    },
     "C10": {
         "module": "BiscuitModel.Props.C10",
         "streams": ["limits", "engine"],
@@ -689,7 +698,56 @@ def oracle_keys(case, impl):
     return None
 
 
-COMPARATORS = {"keys": cmp_keys, "params": cmp_params, "print": cmp_print, "snapshot": cmp_snapshot, "symbols": cmp_symbols, "versions": cmp_versions, "chain": cmp_chain, "limits": cmp_limits, "expr": cmp_default, "engine": cmp_engine, "authz": cmp_authz, "atten": cmp_atten, "determ": cmp_determ}
+# ---------------------------------------------------------------- untrusted stream (C09)
+def cmp_untrusted(case, impl, model):
+    if "driver_error" in model:
+        return "driver error: %s" % model["driver_error"]
+    if "panic" in impl or "abort" in impl:
+        return "skip"       # judged by the oracle
+    kind = case["kind"]
+    if kind == "token":
+        for name in ("sweep", "usweep"):
+            sw = impl.get(name)
+            if not sw:
+                continue
+            if sw["count"] != model["count"]:
+                return "%s: block_count() = %s for a token of %s blocks" % (name, sw["count"], model["count"])
+            for e, want in zip(sw["idx"], model["idx"]):
+                for acc, r in e.items():
+                    if acc == "i":
+                        continue
+                    # an accessor may fail on an in-range index (the block itself may be refused), never succeed out of range
+                    if r == "ok" and not want:
+                        return "%s: %s(%d) succeeds beyond the last block" % (name, acc, e["i"])
+        return None
+    if kind == "symprobe":
+        for k in ("get", "print_default", "tmp_get", "extra_ids"):
+            if impl[k] != model[k]:
+                return "symbol lookup %s differs: %s vs %s" % (k, json.dumps(impl[k]), json.dumps(model[k]))
+        if impl["print"] != impl["get"]:
+            return "print_symbol and get_symbol disagree"
+        return None
+    return "skip"
+
+
+def oracle_untrusted(case, impl):
+    """C09 on the implementation alone: a value or an error, never a panic, an abort or a hang"""
+    if "panic" in impl:
+        return "panic: %s" % impl["panic"]
+    if "abort" in impl:
+        return "the process running the case died: %s" % impl["abort"]
+    return None
+
+
+def match_source_nesting(k, d):
+    """Datalog source nested thousands of levels deep exhausts the stack of the recursive-descent parser"""
+    if d["stream"] != "untrusted" or d["case"].get("kind") != "source" or "died" not in d["why"]:
+        return False
+    t = d["case"].get("text", "")
+    return any(ch * 1000 in t for ch in "([!") or t.count("$x.any(") >= 50
+
+
+COMPARATORS = {"untrusted": cmp_untrusted, "keys": cmp_keys, "params": cmp_params, "print": cmp_print, "snapshot": cmp_snapshot, "symbols": cmp_symbols, "versions": cmp_versions, "chain": cmp_chain, "limits": cmp_limits, "expr": cmp_default, "engine": cmp_engine, "authz": cmp_authz, "atten": cmp_atten, "determ": cmp_determ}
 
 
 def nontrivial(stream, case, impl):
@@ -713,6 +771,8 @@ def nontrivial(stream, case, impl):
         return impl["ext"].get("r") in ("ok", "nomatch", "unauth") and impl["base"].get("r") in ("ok", "nomatch", "unauth")
     if stream == "engine":
         return impl.get("r") == "ok" and impl.get("iterations", 0) >= 1
+    if stream == "untrusted":
+        return case["kind"] != "entry" or impl.get("r") == "ok"
     if stream == "keys":
         return case["kind"] != "decode" or case.get("mutation") != "none"
     if stream == "params":
@@ -853,7 +913,7 @@ def oracle_limits(case, impl):
     return None
 
 
-ORACLES = {("C17", "keys"): oracle_keys, ("C20", "params"): oracle_params, ("C14", "print"): oracle_print, ("C13", "snapshot"): oracle_snapshot, ("C12", "symbols"): oracle_symbols, ("C10", "limits"): oracle_limits, ("C06", "expr"): oracle_expr, ("C03", "atten"): oracle_atten}
+ORACLES = {("C09", "untrusted"): oracle_untrusted, ("C17", "keys"): oracle_keys, ("C20", "params"): oracle_params, ("C14", "print"): oracle_print, ("C13", "snapshot"): oracle_snapshot, ("C12", "symbols"): oracle_symbols, ("C10", "limits"): oracle_limits, ("C06", "expr"): oracle_expr, ("C03", "atten"): oracle_atten}
 
 
 def signature(d):
@@ -906,7 +966,7 @@ def match_policies_key_scope(k, d):
     return d["why"].startswith("policies restore error") and "UnknownExternalKey" in d["why"] and '"key"' in json.dumps(d["case"]["az"])
 
 
-MATCHERS = {"map-key-parameter-type": match_map_key_parameter_type, "singleton-set-parameter": match_singleton_set_parameter, "policies-key-scope": match_policies_key_scope, "ecdsa-s": match_ecdsa_s, "amb": match_amb, "time-after-failed-run": match_time_after_failed_run}
+MATCHERS = {"source-nesting": match_source_nesting, "map-key-parameter-type": match_map_key_parameter_type, "singleton-set-parameter": match_singleton_set_parameter, "policies-key-scope": match_policies_key_scope, "ecdsa-s": match_ecdsa_s, "amb": match_amb, "time-after-failed-run": match_time_after_failed_run}
 
 
 # ---------------------------------------------------------------- shrinking
